@@ -181,4 +181,5 @@ CORE = ["recv_a1", "recv_a2x", "recv_a3y", "recv_dflt", "recv_wrong", "recv_err"
         "fail_assert", "fail_late", "runtime_err", "bad_call", "skipped", "skipped2", "mut_table", "read_table",
         "set_header", "read_header", "inject_var", "read_var", "mock_sub", "mock_fn", "unmocked", "set_host", "read_host",
         "logs", "logs_main", "two_scopes", "two_leak", "two_var", "deliver_fx", "deliver_log", "zone_unset", "zone_in",
-        "zone_out", "zone_bad", "zone_noguard", "empty"]
+        "zone_out", "zone_bad", "zone_noguard", "merge_set", "merge_read", "merge_twice", "mock_restore", "inject_twice",
+        "host_twice", "empty"]
